@@ -457,6 +457,8 @@ func checkMain(args []string) int {
 		knownWhat[k.ID] = k.What
 	}
 	reported := map[string]bool{}
+	fatalDiag := 0
+	_ = fatalDiag
 	for _, c := range cands {
 		key := c.v.Harness + "|" + c.v.Label + "|" + c.v.Known
 		if reported[key] {
@@ -495,6 +497,12 @@ func checkMain(args []string) int {
 				confirmed = true
 				detail = rr.panicMsg
 			}
+		}
+		if !confirmed && c.v.Label == "fatal-error" {
+			// engine-side diagnostic (a FatalError value was built): natively visible only through
+			// what the harness asserts about the returned error; not a candidate of its own
+			fatalDiag++
+			continue
 		}
 		if !confirmed {
 			spurious = append(spurious, fmt.Sprintf("harness=%s label=%q model=%v (%s)", c.v.Harness, c.v.Label, c.v.Model, detail))
